@@ -145,3 +145,12 @@ Theorem C04_layout_components_apart_all_positioners : forall (A : Type) (eqA : A
         (on_x a + on_w a + o_node_spacing o <= on_x b)%Q)).
 Proof. exact G8_layout_separated'. Qed.
 Print Assumptions C04_layout_components_apart_all_positioners.
+
+(* ---------- with the OTHER ordering option, autog.OrderingNoop (Model/PipelineNoop.v: [layout_n bk] is Layout with the
+   bands kept in the order of the layering, every positioner; Proofs/NoopPipeline*.v) ---------- *)
+From Autog Require Import PipelineNoop NoopOverlap.
+Theorem C04_component_end_to_end_noop_ordering : forall bk o g g' x,
+  component_input g -> options_ok o -> sizes_nonneg g -> spacing_nonneg o ->
+  layout_component_n bk o g = Ok (g', x) -> W3_statement o g'.
+Proof. exact Wn3_no_overlap. Qed.
+Print Assumptions C04_component_end_to_end_noop_ordering.
